@@ -69,7 +69,21 @@ class Calls(Interp):
             return self.construct(fv, args, kwargs, node)
         if isinstance(fv, VLambda):
             return self.call_lambda(fv, args, kwargs)
+        if isinstance(fv, VObj) and not self.spec_mode:
+            return self.call_opaque(fv, args, kwargs)
         raise Unsupported("call of %r" % (fv,))
+
+    def call_opaque(self, fv, args, kwargs):
+        """Calling an opaque callable (a user function body, a resolver): counted in ghost `opaque_calls`,
+        returns an arbitrary object or raises an arbitrary exception."""
+        cur = self.st.ghost.get("opaque_calls", VInt(0))
+        self.st.ghost["opaque_calls"] = VInt(cur.t + 1)
+        hook = self.reg.opaque_call_hook
+        if hook is not None:
+            return hook(self, fv, args, kwargs)
+        if self.choose([z3.BoolVal(True), z3.BoolVal(True)]) == 1:
+            raise PyRaise(VExc("Exception", [], exact=False))
+        return VObj(self.fresh("callret", ObjSort))
 
     def call_lambda(self, lam, args, kwargs):
         node = lam.node
